@@ -137,6 +137,10 @@ def handleValidation (cfg : Cfg) (method : Str) (reqH : Header) (key : Str) (sto
       let out := k (.resp (respWith stored.resp (applyStatus .revalidated h)))
       -- no-store on the request or on the 304: nothing of the 304 is written
       if stored.id.isEmpty || ccReq.noStore || (parseCC r.header).noStore then out
+      else if joinWith [',', ' '] (Header.values h sVary) ≠ joinWith [',', ' '] (Header.values stored.resp.header sVary) then
+        -- the 304 changed the Vary field: the response is stored anew for this request, like a full reply
+        storeResponse cfg reqH (respWith stored.resp h) true key refs start t1 refIndex fun r' =>
+          k (.resp (respWith r' (applyStatus .revalidated r'.header)))
       else Prog.setEntry stored.id stored' fun _ => out
     else if isStaleErrorAllowed r.status && method = sGET && !mustValidate &&
             canStaleOnError f t1 [storedCC, ccReq]
